@@ -523,3 +523,32 @@ BASIC_AFF_CALLS = {
     "numpy.sum": "invariant", "sum": "invariant", "numpy.dot": "invariant", "matmul": "invariant", "round": "invariant", "int": "invariant",
     "len": "zero", "index": "zero", "numpy.count_nonzero": "zero", "range": "zero", "numpy.zeros": "zero", "numpy.ones": "zero", "numpy.empty": "zero",
 }
+
+
+# ------------------------------------------------------------------ module-level mutable state
+def module_level_mutated(repo, module_name):
+    """[(name, Func, store)] module-level containers (dict / list / set literals or constructors) that some function of the
+    module mutates - state shared by every object and every call in the process"""
+    m = repo.modules.get(module_name)
+    if m is None:
+        return []
+    shared = {}
+    for st in m.tree.body:
+        tgt = val = None
+        if isinstance(st, ast.Assign) and len(st.targets) == 1 and isinstance(st.targets[0], ast.Name):
+            tgt, val = st.targets[0].id, st.value
+        elif isinstance(st, ast.AnnAssign) and isinstance(st.target, ast.Name) and st.value is not None:
+            tgt, val = st.target.id, st.value
+        if tgt is None:
+            continue
+        if isinstance(val, (ast.Dict, ast.List, ast.Set)) or (isinstance(val, ast.Call) and isinstance(val.func, ast.Name) and val.func.id in ("dict", "list", "set", "defaultdict")):
+            shared[tgt] = st
+    out = []
+    for f in m.functions.values():
+        local_rebinds = {n.id for n in repo.own_nodes(f) if isinstance(n, ast.Name) and isinstance(n.ctx, ast.Store)}
+        params = set(f.params)
+        for st in repo.stores(f):
+            name = st["attr"][1:] if st["attr"].startswith("$") else None
+            if name in shared and name not in local_rebinds and name not in params and st["kind"] in ("elem", "mut", "del_elem"):
+                out.append((name, f, st))
+    return out
